@@ -20,6 +20,12 @@ theorem gen_number_eq (w bits : Nat) (h : F64.isNaN bits = false) :
 theorem decide_ne_eq_bne (a b : Nat) : decide (a ≠ b) = (a != b) := by
   by_cases h : a = b <;> simp [h]
 
+theorem decide_ne_eq_bne' (a b : Nat) : decide (b ≠ a) = (a != b) := by
+  by_cases h : a = b
+  · subst h; simp
+  · have h' : ¬ b = a := fun e => h e.symm
+    simp [h, h']
+
 /-- strum's `ErrorCode::from_repr(x).unwrap_or(Unknown)` over the regenerated discriminants is the
     model's `errorCodeOf` -/
 theorem gen_errorCode_eq (x : Nat) : errorCodeFromRepr x = NanBox.errorCodeOf x := by
@@ -81,7 +87,7 @@ theorem gen_try_decode_eq (w v : Nat) (hv : w = 32 → v < 2 ^ 64) :
       by_cases h2 : t = Tag_Bool
       · simp only [if_pos h2]
         congr 2
-        exact decide_ne_eq_bne _ _
+        first | exact decide_ne_eq_bne _ _ | exact decide_ne_eq_bne' _ _
       · simp only [if_neg h2]
         by_cases h1 : t = Tag_Null
         · simp only [if_pos h1]
